@@ -114,7 +114,11 @@ def lam(rng, lo=-3, hi=5):
 
 
 def srange(rng):
-    start = rng.choice([-2.0, -1.8, -1.0, 0.0, 0.3])
-    step = rng.choice([0.2, 0.2, 0.5, 1.0, 0.1])
+    """uniform ascending grid of log10(lambda); lambda stays within 1e-4 .. 1e8 (beyond ~1e12 the float64 solver breaks down)"""
     n = rng.choice([2, 3, 4, 8, 16, 21, 30, 40])
+    step = rng.choice([0.2, 0.2, 0.5, 1.0, 0.1, 0.25])
+    while (n - 1) * step > 10:
+        step /= 2
+    start = rng.choice([-2.0, -1.8, -1.0, 0.0, 0.3, -3.0])
+    start = min(start, 8.0 - (n - 1) * step)
     return list(np.arange(n) * step + start)
